@@ -1222,10 +1222,116 @@ def copy_run(fn, S, T, choice):
 
     ring = ring_event(lambda a, vals, sk, e: make(a, value(vals, sk), sk, e), gone)
 
+    def not_in_source(what):
+        def f(a, *rest):
+            sk, e = rest[-2], rest[-1]
+            raise dtable.Undecidable("%s: a member called on the source of the copy %s: not understood" % (sk.fn.nloc(e), what))
+        return f
+    ring_src = ring_event(not_in_source("constructs an element"), not_in_source("destroys an element"))
+    closures, nest = {}, [0]
+
+    def in_source(sk):
+        return getattr(sk, "of_source", False)
+
+    def by_value(p):
+        ty = (p.get("ty") or "").rstrip()
+        return not (ty.endswith("&") and not ty.endswith("&&") and "const" not in ty.split("<")[0])
+
+    def enter_source(e, args, sk):
+        """rb.f(...) for a const member f of the class with a body: the body is evaluated with the source as *this - its fields
+        and its storage are those of S - in a skeleton of its own; arguments are handed over by value (a lambda as a closure of
+        the calling skeleton).  Closed world: the event handler below refuses in this context everything that constructs,
+        destroys, allocates or calls a mutator, and nothing of the source may have changed afterwards."""
+        nm = e["callee"]["name"]
+        cal = sk.tu.by_did.get(e["callee"].get("did")) if sk.tu is not None else None
+        actual = [a for a in args[1:] if a is not None and a["k"] != "DefaultArg"]
+        if cal is None or cal.body is None or cal.kind != "method" or not cal.d.get("const") or cal.record != fn.record or in_source(sk) \
+                or nest[0] >= 4 or len(actual) != len(args) - 1 or len(actual) != len(cal.params) or not all(by_value(p) for p in cal.params):
+            raise dtable.Undecidable("%s: call of %s on the source of the copy is not understood" % (sk.fn.nloc(e), nm))
+        env2 = {("field", f_): v_ for f_, v_ in src.items()}
+        if sdata:
+            for k_ in range(m + 24):
+                env2[("elem", ("field", "data_"), k_)] = src_slot(SRC_BASE + k_, None)
+        before = dict(env2)
+        for p, a in zip(cal.params, actual):
+            env2[p["did"]] = sk.ev(a)
+        sk2 = skel.Skel(cal, env2, None, event, mem_default=mem, max_iter=16, tu=sk.tu)
+        sk2.of_source = True
+        sk2.depth = sk.depth + 1
+        sk2.unknown_cond = sk.unknown_cond
+        nest[0] += 1
+        ret = None
+        try:
+            sk2.run(kids(cal.body))
+        except skel.Return as r_:
+            ret = r_.v
+        except skel.Diverges as d_:
+            raise dtable.Undecidable("%s: loop over the source of the copy does not end for a source of %d elements (begin_=%d end_=%d mask_=%d)"
+                                     % (cal.nloc(d_.loop), n, b, src["end_"], m))
+        finally:
+            nest[0] -= 1
+        for k_, v_ in sk2.env.items():
+            if isinstance(k_, tuple) and k_ and (k_[0] in ("field", "mem") or (k_[0] == "elem" and isinstance(k_[1], tuple))) and \
+                    (k_ not in before or before[k_] != v_):
+                raise dtable.Undecidable("%s: %s, called on the source of the copy, writes to the source (%s): not understood"
+                                         % (sk.fn.nloc(e), nm, k_[1] if k_[0] == "field" else "storage"))
+        return ret
+
+    def make_closure(e, sk):
+        """a lambda expression: the closure is run where it is called, in the skeleton that created it (`this` and the variables
+        captured by reference are those of that skeleton; one captured by value must still hold the value it had here)"""
+        lam = sk.tu.by_did.get(e.get("fn")) if sk.tu is not None else None
+        if lam is None or lam.body is None or in_source(sk):
+            raise dtable.Undecidable("%s: lambda expression is not understood" % sk.fn.nloc(e))
+        held = {}
+        for c in e.get("captures") or []:
+            if c.get("byref"):
+                continue
+            d = c.get("id")
+            key = sk.alias.get(d, d)
+            if d is None or (key not in sk.env and d not in sk.alias):
+                raise dtable.Undecidable("%s: lambda capture of %s by value is not understood" % (sk.fn.nloc(e), c.get("name")))
+            held[d] = sk.load(key)
+        closures[lam.did] = (sk, held)
+        return ("closure", lam.did)
+
+    def call_closure(c, e, args, sk):
+        home, held = closures.get(c[1], (None, None))
+        lam = sk.tu.by_did.get(c[1]) if sk.tu is not None else None
+        actual = [a for a in args if a is not None and a["k"] != "DefaultArg"]
+        if home is None or lam is None or e["callee"].get("did") != c[1] or nest[0] >= 4 or len(actual) != len(lam.params) or \
+                not all(by_value(p) for p in lam.params) or any(home.load(home.alias.get(d, d)) != v for d, v in held.items()):
+            raise dtable.Undecidable("%s: call of a lambda is not understood" % sk.fn.nloc(e))
+        vals = [sk.ev(a) for a in actual]
+        for p, v in zip(lam.params, vals):
+            home.env[p["did"]] = v
+        saved = home.fn, home.depth, dict(home.alias)
+        home.fn, home.depth = lam, max(home.depth, sk.depth) + 1
+        nest[0] += 1
+        ret = None
+        try:
+            home.run(kids(lam.body))
+        except skel.Return as r_:
+            ret = r_.v
+        finally:
+            nest[0] -= 1
+            home.fn, home.depth, home.alias = saved
+        if any(home.load(home.alias.get(d, d)) != v for d, v in held.items()):
+            raise dtable.Undecidable("%s: the lambda writes to a variable it captured by value: not understood" % sk.fn.nloc(e))
+        return ret
+
     def event(e, sk):
         if is_assert_stmt(e):
             return None
         k = e["k"]
+        if k == "LambdaExpr":
+            return make_closure(e, sk)
+        if k == "CXXOperatorCallExpr" and e.get("op") == "()" and kids(e):
+            c = sk.ev(kids(e)[0])
+            if isinstance(c, tuple) and len(c) == 2 and c[0] == "closure":
+                return call_closure(c, e, kids(e)[1:], sk)
+        if in_source(sk):
+            return source_event(e, sk)
         if k == "MemberExpr" and kids(e) and is_src(kids(e)[0], sk):
             if e.get("member") in src:
                 return src[e["member"]]
@@ -1262,7 +1368,7 @@ def copy_run(fn, S, T, choice):
                     return src_elem(0)
                 if nm == "back" and len(args) == 1:
                     return src_elem(n - 1) if n > 0 else ("IDX", -1)
-                raise dtable.Undecidable("%s: call of %s on the source of the copy is not understood" % (sk.fn.nloc(e), nm))
+                return enter_source(e, args, sk)
             if nm in ("allocate", "deallocate") and args and match.this_field(args[0]) == "alloc_" and len(args) == (2 if nm == "allocate" else 3):
                 if nm == "allocate":
                     fresh[0] += 10000
@@ -1289,6 +1395,32 @@ def copy_run(fn, S, T, choice):
                 return None
         return ring(e, sk)
 
+    def source_event(e, sk):
+        """inside a member that runs with the source as *this: reads of its fields and slots, arithmetic, its const members
+        (entered by the skeleton) and calls of closures are evaluated; everything that could change an object is refused"""
+        k = e["k"]
+        if k == "ArraySubscriptExpr" and not _has_update(e):
+            a_, i_ = sk.ev(kids(e)[0]), sk.ev(kids(e)[1])
+            if isinstance(a_, int) and isinstance(i_, int) and not isinstance(a_, bool) and not isinstance(i_, bool) and a_ >= SRC_BASE - 1000:
+                return src_slot(a_ + _umod(i_, kids(e)[1].get("ty")), e)
+            return NotImplemented
+        if k in ("BinaryOperator", "CXXOperatorCallExpr") and e.get("op") in ("==", "!=") and len(kids(e)) == 2 and \
+                any(strip_casts(x) is not None and strip_casts(x)["k"] == "This" for x in kids(e)):
+            raise dtable.Undecidable("%s: comparison of the address of the source of the copy is not understood" % sk.fn.nloc(e))
+        if "callee" in e:
+            nm = e["callee"]["name"]
+            args = kids(e)
+            if nm in TRANSPARENT and len(args) == 1:
+                return sk.ev(args[0])
+            if nm in ("allocate", "deallocate"):
+                raise dtable.Undecidable("%s: a member called on the source of the copy calls %s: not understood" % (sk.fn.nloc(e), nm))
+            if e.get("member_call") and args and self_obj(args[0]) is not None:
+                cal = sk.tu.by_did.get(e["callee"].get("did")) if sk.tu is not None else None
+                if nm in RB_MUTATORS or cal is None or not cal.d.get("const"):
+                    raise dtable.Undecidable("%s: a member called on the source of the copy calls %s, which is not a const member: not understood"
+                                             % (sk.fn.nloc(e), nm))
+        return ring_src(e, sk)
+
     def mem(a):
         return src_slot(a, None) if a >= SRC_BASE - 1000 else live.get(a)
     sk = skel.Skel(fn, env, None, event, mem_default=mem, max_iter=16)
@@ -1313,6 +1445,15 @@ def copy_run(fn, S, T, choice):
         pass
     except skel.Diverges as d_:
         raise dtable.Undecidable("%s: loop of the copy does not end for a source of %d elements" % (fn.nloc(d_.loop), n))
+    except skel.TooLong as t_:
+        # a loop is still running after 16 rounds (the source has at most 3 elements): nothing is concluded from that alone,
+        # but an element already constructed from storage of the source that holds no element is a counterexample by itself
+        junk = [v for v in live.values() if isinstance(v, tuple) and v and v[0] in ("SLOT", "IDX")]
+        if not junk:
+            raise
+        return dict(asked=asked[0], seq=[], old=False, verdict="bad",
+                    text="an element of the copy is constructed from %s (the loop at line %s is still running after %d rounds)"
+                         % (copy_label(junk[0]), (t_.loop or {}).get("l", "?"), sk.MAX_ITER))
     f = {k: sk.env.get(("field", k)) for k in ("begin_", "end_", "mask_", "data_")}
     res = dict(asked=asked[0], seq=[], text="", old=False, verdict="?")
     if any(isinstance(v, bool) or not isinstance(v, int) for v in f.values()):
